@@ -28,6 +28,15 @@ var profile = gen.Profile{
 
 func genCase(t *rapid.T) sim.Scenario { return gen.ServerScenario(t, profile) }
 
+// withNotes: the same histories with parking notifications among them, so that
+// records wait in the queue behind the barrier while ids are cancelled and reused.
+func genNotes(t *rapid.T) sim.Scenario {
+	p := profile
+	p.PNote = 14
+	p.PCancel = 24
+	return gen.ServerScenario(t, p)
+}
+
 func run(t *testing.T, sc sim.Scenario) engine.Verdict {
 	return oracle.RunServer(t, sc, []string{"C07/"}, func(f oracle.Facts) bool {
 		return f.IDReuse && (f.IDReuseInFlight || f.IDReuseAfterError || f.IDReuseAfterCancel)
@@ -37,6 +46,11 @@ func run(t *testing.T, sc sim.Scenario) engine.Verdict {
 var parts = []engine.AnyPart{
 	engine.Part[sim.Scenario]{Name: "scenarios", Run: run, Gen: genCase,
 		Rule: "rapid-generated histories of calls whose ids come from the pool {1, 2, \"1\", 3, \"s\"} (constant reuse), to parking / immediate / failing handlers, unknown and reserved methods, duplicates inside one array, CancelRequest for in-flight, finished and never-seen ids, at every quiescent point the context of each parked invocation must be cancelled iff a CancelRequest named its id while it was in flight, the reserved-id snapshot must equal the model's in-flight set, duplicates of in-flight ids are answered -32600 without disturbing the first call, ids are accepted again after any reply; non-trivial = an id is reused while the first use is in flight, or after an error reply, or after a CancelRequest; distinct = hash of the scenario"},
+}
+
+func init() {
+	parts = append(parts, engine.Part[sim.Scenario]{Name: "queued", Run: run, Gen: genNotes,
+		Rule: "the histories of part scenarios with parking notifications among the members (one valid member in seven), so that later records wait in the inbound queue behind the notification barrier while CancelRequest names in-flight, finished and never-seen ids and ids are used again; same clauses (suppressed where the same scenario shows a C01 or C03 problem); non-trivial and distinct as in scenarios"})
 }
 
 // restart: reservations must not outlive the connection they were made on.
